@@ -71,6 +71,7 @@ impl<R: std::io::Read> NormalizedReader<R> {
 
         // Handle edge case where the last byte of the previous buffer was `\r`.
         let edge_case = [last_char, self.in_buffer[0]];
+        crate::verif_event!("norm.rd.window", read, last_char, self.in_buffer[0]);
         match (edge_case, read > 0) {
             ([CR, LF], true) => {
                 // Edge case, we need to normalize this pair of bytes separately.
